@@ -214,6 +214,87 @@ RAISERS = {
 UNPRINTABLE = {"str-returns-nonstring", "unprintable", "unprintable-recursive"}
 
 
+# format-hostile and look-alike exception texts, falsy exception arguments
+RAISERS.update({
+    "percent": _raise(lambda: ValueError("%s %d %(name)s 100% %")),
+    "braces": _raise(lambda: ValueError("{} {0} {method} {e} {{ } {")),
+    "quotes-backslash": _raise(lambda: ValueError("'\"\\ \\n \\")),
+    "falsy-arg-zero": _raise(lambda: ValueError(0)),
+    "falsy-arg-false": _raise(lambda: ValueError(False)),
+    "falsy-arg-empty-list": _raise(lambda: ValueError([])),
+    "falsy-arg-none": _raise(lambda: ValueError(None)),
+    "falsy-arg-empty-bytes": _raise(lambda: ValueError(b"")),
+    "looks-like-unknown-tool": _raise(lambda: ValueError("Unknown tool: echo")),
+    "looks-like-method-not-found": _raise(lambda: KeyError("Method not found: ping")),
+    "recursion-error": _raise(lambda: RecursionError("maximum recursion depth exceeded")),
+})
+
+
+def _deep_list(n):
+    x = ["leaf"]
+    for _ in range(n):
+        x = [x]
+    return x
+
+
+def _returning(value, suspend=False):
+    async def tool(text="d"):
+        if suspend:
+            await asyncio.sleep(0)
+        return value() if callable(value) else value
+    return tool
+
+
+HOSTILE_TEXT = "%s %d {0} {} {text} \n\r\n \u2028\u2029\x85 '\"\\"
+# tool name -> value handed back (falsy values, containers, look-alikes, sizes); all are formatted into a result
+RETURNS = {
+    "ret/empty-str": "", "ret/zero": 0, "ret/zero-float": 0.0, "ret/false": False, "ret/empty-list": [], "ret/empty-dict": {},
+    "ret/nested-empty": [[], [[]], {}], "ret/nested-lists": [["a", ["b", {"k": []}]], "", 0], "ret/tuple": ("a", 1),
+    "ret/empty-bytes": b"", "ret/hostile-text": HOSTILE_TEXT, "ret/hostile-dict": {HOSTILE_TEXT: HOSTILE_TEXT, "": None},
+    "ret/looks-like-error": {"jsonrpc": "2.0", "id": None, "error": {"code": -32602, "message": "Unknown tool: x"}},
+    "ret/large": lambda: ["x" * 200] * 3000, "ret/long-text": lambda: "y" * 300000, "ret/deep-100": lambda: _deep_list(100),
+    # names that are twins of non-string JSON values, constants of the code under test, format-hostile names
+    "0": "zero", "7": "seven", "5": "five", "None": "none", "True": "true", "False": "false", "1.5": "f",
+    "handler": "h", "tools/call": "t", "ping": "p", "initialize": "i", "name": "n", "arguments": "a", "-32602": "c",
+    "%s": "pct", "{0}": "brace", "a\nb": "nl", "\u2028": "ls", " ": "space",
+}
+for _n, _v in RETURNS.items():
+    TOOLS[_n] = (_returning(_v), "returns")
+TOOLS["ret/suspends"] = (_returning("late", suspend=True), "returns")
+TOOLS["ret/deep-5000"] = (_returning(lambda: _deep_list(5000)), "nonsense")  # RecursionError while formatting
+
+
+def _res_returning(value, suspend=False):
+    async def res():
+        if suspend:
+            await asyncio.sleep(0)
+        return value
+    return res
+
+
+for _u, _v in {"": "empty uri", "file:///empty-str": "", "file:///zero": 0, "file:///false": False, "file:///empty-bytes": b"",
+               "file:///empty-list": [], "file:///hostile": HOSTILE_TEXT, "%s": "pct", "{0}": "brace", "0": "zero", "None": "none",
+               "uri": "u", "resources/read": "r", "text/plain": "m", "a\nb": "nl"}.items():
+    RESOURCES[_u] = (_res_returning(_v), "returns")
+RESOURCES["file:///suspends"] = (_res_returning("late", suspend=True), "returns")
+
+# custom handlers answering with falsy results / falsy session ids / after a suspension
+ANSWER_RESULTS = {"answers/result-zero": 0, "answers/result-empty-str": "", "answers/result-empty-list": [], "answers/result-false": False,
+                  "answers/result-empty-dict": {}, "answers/result-none": None, "answers/result-zero-float": 0.0}
+ANSWER_SIDS = {"answers/sid-empty-str": "", "answers/sid-zero": 0, "answers/sid-false": False}
+for _k in list(ANSWER_RESULTS) + list(ANSWER_SIDS) + ["answers/suspends"]:
+    CUSTOM[_k] = "answers"
+CUSTOM["raises/after-suspension"] = "raises"
+
+# server variants: "overrides" re-registers built-in methods through register_method (custom entries win)
+OVERRIDES = {"ping": "answers", "tools/call": "raises", "notifications/initialized": "acks", "resources/list": "silent",
+             "tools/list": "nonsense"}
+
+
+def custom_table(variant=None):
+    return dict(CUSTOM, **OVERRIDES) if variant == "overrides" else CUSTOM
+
+
 def _tool_raising(f):
     async def tool(text="d"):
         f()
@@ -265,7 +346,7 @@ def raise_shape(kind, name):
     return None
 
 
-def build_server():
+def build_server(variant=None):
     from chuk_mcp.server.server import MCPServer
 
     srv = MCPServer("verif", "1.0")
@@ -363,11 +444,31 @@ def build_server():
         "nonsense/returns-coroutine": c_returns_coroutine, "nonsense/async-generator": c_async_generator,
         "nonsense/returns-future": c_returns_future,
     }
+    def answering(result, sid=None, suspend=False):
+        async def h(message, session_id):
+            if suspend:
+                await asyncio.sleep(0)
+            return ph.create_response(message.id, result), sid
+        return h
+
+    async def c_raises_late(message, session_id):
+        await asyncio.sleep(0)
+        raise RuntimeError("late failure")
+
+    for k, v in ANSWER_RESULTS.items():
+        table[k] = answering(v)
+    for k, v in ANSWER_SIDS.items():
+        table[k] = answering({"ok": 1}, sid=v)
+    table["answers/suspends"] = answering({"ok": 1}, suspend=True)
+    table["raises/after-suspension"] = c_raises_late
+    if variant == "overrides":
+        table.update({"ping": c_answers, "tools/call": c_raises, "notifications/initialized": c_ack_params,
+                      "resources/list": c_silent, "tools/list": c_none})
     for shape, f in RAISERS.items():
         table["raise/" + shape] = raising(f)
     for meth, shape in NOTIFICATION_RAISERS.items():
         table[meth] = raising(RAISERS[shape])
-    missing = set(CUSTOM) - set(table)
+    missing = set(custom_table(variant)) - set(table)
     if missing:
         raise RuntimeError(f"harness: no python handler for custom methods {sorted(missing)}")
     for meth, fn in table.items():
@@ -378,17 +479,22 @@ def build_server():
 BUILTIN = ["initialize", "notifications/initialized", "ping", "tools/list", "tools/call", "resources/list", "resources/read"]
 
 
-def registered_methods():
-    return set(BUILTIN) | set(CUSTOM)
+def registered_methods(variant=None):
+    return set(BUILTIN) | set(custom_table(variant))
 
 
-def server():
+_SERVERS: dict = {}
+
+
+def server(variant=None, fresh=False):
     """one server for many cases (dispatch keeps no state but the sessions initialize creates)"""
-    global _SERVER, _USES
-    if _SERVER is None or _USES > 2000:
-        _SERVER, _USES = build_server(), 0
-    _USES += 1
-    return _SERVER
+    if fresh:
+        return build_server(variant)
+    ent = _SERVERS.get(variant)
+    if ent is None or ent[1] > 2000:
+        ent = _SERVERS[variant] = [build_server(variant), 0]
+    ent[1] += 1
+    return ent[0]
 
 
 def make_envelope(msg, env):
@@ -403,11 +509,18 @@ def make_envelope(msg, env):
     return J.JSONRPCMessage.model_validate(dict(msg))
 
 
-def run_case(case):
-    msg, env = case["msg"], case.get("env", "legacy")
+def dispatch_one(srv, msg, env="legacy", sid=None, cache=None, reuse=False):
+    """one message through srv.protocol_handler.handle_message(envelope, sid) -> observation"""
     obs = {"parse": "ok", "raised": None, "pair": None, "resp": None, "sid": False}
+    key = json.dumps([msg, env], sort_keys=True, default=str)
     try:
-        m = make_envelope(msg, env)
+        if reuse and cache is not None and key in cache:
+            m = cache[key]  # the very same envelope object dispatched again
+        else:
+            inner = "legacy" if env == "list" else env
+            m = make_envelope(msg, inner)
+            if cache is not None:
+                cache[key] = m
     except Exception as ex:  # the envelope layer rejected the message: it never reaches dispatch
         obs["parse"] = "rejected:" + type(ex).__name__
         return obs
@@ -415,9 +528,9 @@ def run_case(case):
     seen_id = getattr(m, "id", None)
     obs["seen_id"] = seen_id if isinstance(seen_id, (int, str)) and not isinstance(seen_id, bool) else (None if seen_id is None else repr(seen_id))
     obs["seen_method"] = getattr(m, "method", None)
-    srv = server()
+    arg = [m, m] if env == "list" else m
     try:
-        ret = _loop().run_until_complete(srv.protocol_handler.handle_message(m, None))
+        ret = _loop().run_until_complete(srv.protocol_handler.handle_message(arg, sid))
     except Exception as ex:
         obs["raised"] = type(ex).__name__
         return obs
@@ -426,8 +539,9 @@ def run_case(case):
         obs["ret_type"] = type(ret).__name__
         return obs
     obs["pair"] = True
-    resp, sid = ret
-    obs["sid"] = sid is not None
+    resp, new_sid = ret
+    obs["sid"] = new_sid is not None
+    obs["sid_value"] = new_sid if isinstance(new_sid, str) else None
     if resp is None:
         return obs
     try:
@@ -443,6 +557,28 @@ def run_case(case):
         r["code"] = d["error"].get("code")
     obs["resp"] = r
     return obs
+
+
+def run_case(case):
+    """single message: {"msg", "env"?, "sid"?, "server"?}   sequence on a fresh server:
+    {"seq": [{"msg","env"?,"sid"?,"reuse"?}, …], "server"?}  (sid "$last" = the session id the last initialize returned)"""
+    variant = case.get("server")
+    if "seq" not in case:
+        o = dispatch_one(server(variant), case["msg"], case.get("env", "legacy"), case.get("sid"))
+        o.pop("sid_value", None)
+        return o
+    srv = server(variant, fresh=True)
+    cache, last_sid, steps = {}, None, []
+    for st in case["seq"]:
+        sid = st.get("sid")
+        if sid == "$last":
+            sid = last_sid
+        o = dispatch_one(srv, st["msg"], st.get("env", "legacy"), sid, cache, st.get("reuse", False))
+        if o.get("sid_value"):
+            last_sid = o["sid_value"]
+        o.pop("sid_value", None)
+        steps.append(o)
+    return {"steps": steps}
 
 
 # ------------------------------------------------------------------------------------------
@@ -467,16 +603,20 @@ def args_ok(params):
     return isinstance(a, dict) and set(a) <= TOOL_KWARGS
 
 
-SERVER_SPEC = {
-    "tools": {k: v[1] for k, v in TOOLS.items()},
-    "resources": {k: v[1] for k, v in RESOURCES.items()},
-    "custom": {k: MODEL_CBEH.get(v, v) for k, v in CUSTOM.items()},
-    "nextSid": "sid",
-}
+def server_spec(variant=None):
+    return {
+        "tools": {k: v[1] for k, v in TOOLS.items()},
+        "resources": {k: v[1] for k, v in RESOURCES.items()},
+        "custom": {k: MODEL_CBEH.get(v, v) for k, v in custom_table(variant).items()},
+        "nextSid": "sid",
+    }
+
+
+SERVER_SPECS = {None: server_spec(None), "overrides": server_spec("overrides")}
 
 
 def model_line(case, obs):
-    if obs["parse"] != "ok":
+    if obs["parse"] != "ok" or case.get("env") == "list" or "seq" in case:
         return None
     sid = obs.get("seen_id")
     if sid is None:
@@ -486,10 +626,10 @@ def model_line(case, obs):
     else:
         idj = {"s": sid}
     params = case["msg"].get("params")
-    if sid is not None and CUSTOM.get(obs.get("seen_method")) in UNFAITHFUL_FOR_MODEL:
+    if sid is not None and custom_table(case.get("server")).get(obs.get("seen_method")) in UNFAITHFUL_FOR_MODEL:
         return None  # a request to a handler that answers with a response of its own making: outside the statements
     return {
-        "m": "dispatch", "server": SERVER_SPEC,
+        "m": "dispatch", "server": SERVER_SPECS[case.get("server")],
         "msg": {"id": idj, "method": obs.get("seen_method"), "name": _key(params, "name"), "uri": _key(params, "uri"),
                 "argsOk": args_ok(params)},
     }
